@@ -38,6 +38,7 @@ def runDim (j : Json) : R Json := do
   let ids := groups.map (·.2)
   let keys := groups.map (·.1)
   let sizes := entitySizes sides (gs.map (·.ncells))
+  if sides.sum != gs.length then throw "sides do not add up to the number of grids" else
   if scalar.map List.length != sizes then throw "scalar data do not fit the entity sizes" else
   if vector.map List.length != sizes then throw "vector data do not fit the entity sizes" else
   let gridPts := gin.map (fun g => gridPoints g.dim g.nodes g.centers)
@@ -85,9 +86,17 @@ def runPvdLabels (j : Json) : R Json := do
     let s ← fNat e "suffix"
     let f ← fStr e "file"
     pure (l, s, f))
+  let consts ← field j "entries" >>= jList (fun e => fBool e "const")
+  -- input conditions of pvd_selects_latest_labels / pvd_index_is_max_step, evaluated on every case
+  let wf := es.all (fun e => wellFormedLabel e.1)
+  -- separately exported constant data keep the suffix of the step they were written at and are
+  -- listed after the data files: the monotonicity condition concerns the data files
+  let dataEs := ((es.zip consts).filter (fun p => !p.2)).map (·.1)
+  let mono := monoEntries (dataEs.map (fun e => (valueF e.1, e.2.1, e.2.2)))
   match pvdSelectLabels es with
   | none => pure (err "ValueError")
-  | some (i, files) => pure (obj [("index", ofNat i), ("files", ofList Json.str files)])
+  | some (i, files) => pure (obj [("index", ofNat i), ("files", ofList Json.str files),
+                                  ("wellformed", Json.bool wf), ("mono", Json.bool mono)])
 
 def appOf : Nat → Appendix
   | 0 => .none
@@ -136,6 +145,35 @@ def runResolve (j : Json) : R Json := do
     | some (d, f) => Json.arr #[ofNat d, Json.bool f]
     | none => Json.null)).toArray)])
 
+def exceptJson (r : Except String Json) : Json :=
+  match r with
+  | .ok j => j
+  | .error k => err k
+
+/-- `_build_field` on a dimension where `present[i]` says whether entity i carries the key, and
+    `_to_vector_format` on (size, ndofs) pairs -/
+def runInput (j : Json) : R Json := do
+  let present ← field j "present" >>= jList jBool
+  let sizes ← fNatss j "sizes"
+  let bf := buildField (present.map (fun b => if b then some [(0 : Nat)] else none))
+  let vf := sizes.map (fun p => match p with
+    | [a, b] => exceptJson ((toVectorFormat a b).map (fun _ => Json.str "ok"))
+    | _ => err "bad-op")
+  pure (obj [("build", exceptJson (bf.map (fun o => Json.str (if o.isSome then "field" else "nothing")))),
+             ("vecfmt", Json.arr vf.toArray)])
+
+/-- the DataSavingMixin path: `ws` = (micro-time, time, dt) per step -/
+def runMixin (j : Json) : R Json := do
+  let ws ← field j "ws" >>= jList (fun e => do
+    match ← jList jRat e with
+    | [n, t, h] => if n.den == 1 && n.num ≥ 0 then pure (n.num.toNat, t, h) else throw "bad micro-time"
+    | _ => throw "not a triple")
+  match mixinRestart ws with
+  | none => pure (err "IndexError")
+  | some (idx, m) => pure (obj [("index", ofNat idx), ("time", ofRat m.time), ("dt", ofRat m.dt),
+                                ("times", ofRats m.expTimes), ("dts", ofRats m.expDt),
+                                ("steps", ofNats (counterSteps 0 ws.length))])
+
 def step (_ : Unit) (j : Json) : R (Unit × Json) := do
   let op ← fStr j "op"
   let out ← match op with
@@ -144,6 +182,8 @@ def step (_ : Unit) (j : Json) : R (Unit × Json) := do
     | "pvd_labels" => runPvdLabels j
     | "names" => runNames j
     | "resolve" => runResolve j
+    | "input" => runInput j
+    | "mixin" => runMixin j
     | _ => throw s!"unknown op {op}"
   pure ((), out)
 
